@@ -426,6 +426,31 @@ class Interp:
         out = [k for k in out if self._inlinable(k)]
         return out[0] if len(out) == 1 else None
 
+    def _tryfrom_key(self, src_ty, res_ty):
+        """fn key of `impl TryFrom<src> for dst` of the analysed crate, dst read off the result type `Result<dst, _>`"""
+        t = (res_ty or '').replace('std::result::', '').strip()
+        if not t.startswith('Result<'):
+            return None
+        depth, dst = 0, None
+        for i_, ch in enumerate(t[7:]):
+            if ch in '<([':
+                depth += 1
+            elif ch in '>)]':
+                depth -= 1
+            elif ch == ',' and depth == 0:
+                dst = t[7:7 + i_].strip()
+                break
+        if dst is None:
+            return None
+        src = (src_ty or '').strip()
+        cands = []
+        for s_ in (src, src.lstrip('&').replace('mut ', '').strip()):
+            suffix = '<impl std::convert::TryFrom<%s> for %s>::try_from' % (s_, dst)
+            cands = [k for k in self.facts['fns'] if k.endswith(suffix)]
+            if cands:
+                break
+        return cands[0] if len(cands) == 1 and self._inlinable(cands[0]) else None
+
     def _inlinable(self, c):
         return self.facts is not None and c in self.facts['fns'] and (self.inline is None or self.inline(c))
 
@@ -482,8 +507,17 @@ class Interp:
         if k == 'Struct':
             if isinstance(v, Cell):
                 v = v.get()
+            ct_ = p.get('ctor') or {}
+            if ct_.get('dk') == 'Variant' and ct_.get('path') and isinstance(v, tuple) and len(v) in (2, 3) and v[0] in ('const', 'ctor') \
+                    and str(v[1]).rsplit('::', 1)[0] == ct_['path'].rsplit('::', 1)[0] and v[1] != ct_['path']:
+                return False          # a unit / tuple variant of the same enum
             if not (isinstance(v, dict) and '__struct__' in v):
                 raise NoEval('struct pattern on %r' % (v,))
+            if ct_.get('dk') == 'Variant' and ct_.get('path') and v['__struct__'] != ct_['path']:
+                # a struct-like enum variant: another variant of the same enum does not match
+                if str(v['__struct__']).rsplit('::', 1)[0] == ct_['path'].rsplit('::', 1)[0]:
+                    return False
+                raise NoEval('variant pattern %s on a value of another type' % ct_['path'])
             for n_, sp in p['fields']:
                 if n_ not in v:
                     raise NoEval('field %s in a struct pattern' % n_)
@@ -625,6 +659,11 @@ class Interp:
             if m_:
                 w_, sg_ = _INT_TY[m_.group(1)]
                 return w_ if m_.group(2) == 'BITS' else ((1 << (w_ - 1)) - 1 if sg_ else (1 << w_) - 1) if m_.group(2) == 'MAX' else (-(1 << (w_ - 1)) if sg_ else 0)
+            mfa_ = re.match(r'^(?:[a-z_]+::)*(?:f64::|<impl f64>::|f64::<impl f64>::)(MIN_EXP|MAX_EXP|MAX|MIN|EPSILON|INFINITY|NEG_INFINITY|NAN|MIN_POSITIVE|MANTISSA_DIGITS|RADIX)$', p)
+            if mfa_:
+                import sys as _sys
+                return {'MIN_EXP': -1021, 'MAX_EXP': 1024, 'MAX': _sys.float_info.max, 'MIN': -_sys.float_info.max, 'EPSILON': _sys.float_info.epsilon, 'INFINITY': float('inf'),
+                        'NEG_INFINITY': float('-inf'), 'NAN': float('nan'), 'MIN_POSITIVE': _sys.float_info.min, 'MANTISSA_DIGITS': 53, 'RADIX': 2}[mfa_.group(1)]
             mf_ = re.match(r'^(?:std|core)::(f32|f64)::consts::([A-Z_0-9]+)$', p)
             if mf_:
                 import math as _m
@@ -949,6 +988,8 @@ class Interp:
                 return str(v_)
         if (e.get('ty') or '').endswith('string::String') and not e['args'] and c.rsplit('::', 1)[-1] in ('new', 'default'):
             return ''
+        if c.endswith(('boxed::Box::<T>::new', 'rc::Rc::<T>::new', 'sync::Arc::<T>::new')) and len(e['args']) == 1:
+            return self.val(e['args'][0], env)          # a box is its content (deref and auto-deref are transparent here)
         if c.endswith('vec::from_elem') and len(e['args']) == 2:
             x_, n_ = self.val(e['args'][0], env), self.ev(e['args'][1], env)
             return [deep_clone(x_) for _ in range(n_)]
@@ -966,6 +1007,11 @@ class Interp:
                     d_[str(i_)] = self.ev(x, env)
                 return d_
             return ('ctor', fnode['res'].get('path'), tuple(self.ev(x, env) for x in e['args']))
+        if c.endswith('convert::TryFrom::try_from') and len(e['args']) == 1 and self.facts is not None:
+            at_ = (e['args'][0].get('ty') or hir.strip(e['args'][0]).get('ty') or '').strip()
+            k_ = self._tryfrom_key(at_, e.get('ty'))
+            if k_ is not None:
+                return self.local_call(k_, [self.val(e['args'][0], env)])
         if c in getattr(self, 'host_fns', {}):
             return self.host_fns[c]([self.ev(x, env) for x in e['args']])
         if getattr(self, 'host_call', None) is not None:
@@ -1222,6 +1268,10 @@ class Interp:
                 return ('Ok', A()(recv[1])) if recv[0] == 'Ok' else recv
             if nm == 'map_err' and len(args) == 1:
                 return ('Err', A()(recv[1])) if recv[0] == 'Err' else recv
+        if nm == 'try_into' and not args and isinstance(recv, dict) and '__struct__' in recv and self.facts is not None:
+            k_ = self._tryfrom_key((e['recv'].get('ty') or hir.strip(e['recv']).get('ty') or recv['__struct__']), e.get('ty'))
+            if k_ is not None:
+                return self.local_call(k_, [recv])
         if isinstance(recv, list) and nm == 'try_into' and not args:
             m_ = re.search(r'Result<\[.*; (\d+)\]', (e.get('ty') or '').replace('std::result::', ''))
             if m_ is None:
@@ -1247,6 +1297,15 @@ class Interp:
                     if r != NONE:
                         out.append(r[1])
                 return out
+            if nm == 'find_map':
+                f = A()
+                for x in L:
+                    r = f(x)
+                    if not _is_opt(r):
+                        raise NoEval('find_map closure returned %r' % (r,))
+                    if r != NONE:
+                        return r
+                return NONE
             if nm == 'flat_map':
                 f = A()
                 out = []
@@ -1279,6 +1338,8 @@ class Interp:
                 return L[A():]
             if nm == 'take':
                 return L[:A()]
+            if nm == 'collect' and (e.get('ty') or '').strip().endswith('string::String') and all(isinstance(x, str) for x in L):
+                return ''.join(L)
             if nm == 'collect' and (e.get('ty') or '').replace('std::result::', '').replace('std::option::', '').startswith(('Result<', 'Option<')):
                 t_ = (e.get('ty') or '').replace('std::result::', '').replace('std::option::', '')
                 out_ = []
@@ -1324,6 +1385,13 @@ class Interp:
                 return NONE
             if nm == 'contains':
                 return A() in L
+            if nm == 'next' and not args and isinstance(recv, list) and not isinstance(recv, Deque):
+                rl_ = hir.local(hir.strip(e['recv'])) if hir.strip(e['recv']).get('k') == 'Path' else None
+                if rl_ and rl_[1] in env and env[rl_[1]] is recv and 'Vec<' not in (hir.strip(e['recv']).get('ty') or ''):
+                    # an iterator bound to a local and advanced with next(): from now on it has a position
+                    it_ = PeekIter(recv)
+                    env[rl_[1]] = it_
+                    return it_._next(())
             if nm in ('first', 'last', 'next', 'max', 'min'):
                 if not L:
                     return NONE
@@ -1476,8 +1544,60 @@ class Interp:
                 return len(recv)
             if nm == 'chars':
                 return list(recv)
-            if nm == 'to_ascii_uppercase':
-                return recv.upper()
+            if nm in ('to_ascii_uppercase', 'to_ascii_lowercase') and not args:
+                tr_ = str.upper if nm.endswith('uppercase') else str.lower
+                return ''.join(tr_(ch) if ord(ch) < 128 else ch for ch in recv)
+            if nm in ('is_whitespace', 'is_ascii_digit', 'is_alphabetic', 'is_ascii_alphabetic', 'is_numeric', 'is_ascii_whitespace') and not args and len(recv) == 1:
+                return {'is_whitespace': recv.isspace(), 'is_ascii_digit': recv in '0123456789', 'is_alphabetic': recv.isalpha(), 'is_ascii_alphabetic': recv.isalpha() and ord(recv) < 128,
+                        'is_numeric': recv.isnumeric(), 'is_ascii_whitespace': recv in ' \t\n\x0c\r'}[nm]
+            if nm == 'replace' and len(args) == 2:
+                a_, b_ = A(0), A(1)
+                if isinstance(a_, str) and isinstance(b_, str) and a_:
+                    return recv.replace(a_, b_)
+                raise NoEval('str::replace(%r, %r)' % (a_, b_))
+            if nm in ('trim', 'trim_start', 'trim_end') and not args:
+                return {'trim': recv.strip, 'trim_start': recv.lstrip, 'trim_end': recv.rstrip}[nm]()
+            if nm in ('trim_start_matches', 'trim_end_matches', 'trim_matches') and len(args) == 1:
+                a_ = A()
+                if not (isinstance(a_, str) and a_):
+                    raise NoEval('%s(%r)' % (nm, a_))
+                r_ = recv
+                if nm in ('trim_start_matches', 'trim_matches'):
+                    while r_.startswith(a_):
+                        r_ = r_[len(a_):]
+                if nm in ('trim_end_matches', 'trim_matches'):
+                    while r_.endswith(a_):
+                        r_ = r_[:-len(a_)]
+                return r_
+            if nm == 'contains' and len(args) == 1:
+                a_ = A()
+                if isinstance(a_, str):
+                    return a_ in recv
+                raise NoEval('str::contains(%r)' % (a_,))
+            if nm in ('strip_prefix', 'strip_suffix') and len(args) == 1:
+                a_ = A()
+                if isinstance(a_, str):
+                    if nm == 'strip_prefix':
+                        return some(recv[len(a_):]) if recv.startswith(a_) else NONE
+                    return some(recv[:len(recv) - len(a_)]) if recv.endswith(a_) else NONE
+            if nm == 'split' and len(args) == 1:
+                a_ = A()
+                if isinstance(a_, str) and a_:
+                    return PeekIter(recv.split(a_))
+                raise NoEval('str::split(%r)' % (a_,))
+            if nm == 'parse' and not args:
+                t_ = (e.get('ty') or '').replace('std::result::', '')
+                mi_ = re.match(r'^Result<([iu](?:8|16|32|64|128|size)),', t_)
+                if mi_:
+                    ty_ = int_ty(mi_.group(1))
+                    if re.match(r'^[+-]?[0-9]+$', recv) and (ty_[1] or not recv.startswith('-')) and in_range(int(recv), ty_):
+                        return ('Ok', int(recv))
+                    return ('Err', 'ParseIntError')
+                if re.match(r'^Result<f64,', t_):
+                    if re.match(r'^[+-]?(?:[0-9]+\.?[0-9]*(?:[eE][+-]?[0-9]+)?|\.[0-9]+(?:[eE][+-]?[0-9]+)?|inf|infinity|nan)$', recv, re.I):
+                        return ('Ok', float(recv))
+                    return ('Err', 'ParseFloatError')
+                raise NoEval('str::parse to %s' % t_)
         if isinstance(recv, float):
             r_ = _float_method(nm, recv, [self.ev(x, env) for x in args])
             if r_ is not NotImplemented:
